@@ -38,6 +38,9 @@ enum Case {
     ZeroBytes { suite: String, what: String, first: bool, seed: String },
     /// a 70 000-byte message (longer than any u16 length field) and a 5 000-byte one
     HugeMessage { suite: String, len: usize, seed: String },
+    /// key material and messages that went through something else first: wire round trips of every
+    /// object of the session (binary / JSON), dealer refresh, distributed refresh, repair
+    Provenance { suite: String, n: u16, t: u16, kind: String, signers: u32, seed: String },
     /// tiny field: all keys x coefficient vectors for one (ids, t, S), seeded nonces
     TinyKeys { q: u64, ids: Vec<u64>, t: u16, signers: u32 },
     /// tiny field: every nonce 4-tuple for |S| = 2, seeded keys
@@ -145,6 +148,25 @@ impl Prop for C01 {
             }
         }
         // tiny layers
+        for suite in REAL_SUITES {
+            for (n, t) in [(3u16, 2u16), (4, 3), (4, 4), (5, 3)] {
+                if suite == "ed448" && n > 4 {
+                    continue;
+                }
+                for kind in ["wire-bin", "wire-json", "refresh-dealer", "refresh-dkg", "repair"] {
+                    let members = match kind {
+                        "refresh-dealer" | "refresh-dkg" => std::cmp::min(n, t + 1),
+                        _ => n,
+                    };
+                    if kind == "repair" && t == n {
+                        continue;
+                    }
+                    for sgn in subsets(members as usize, t as usize, members as usize) {
+                        out.push(serde_json::to_value(Case::Provenance { suite: suite.to_string(), n, t, kind: kind.to_string(), signers: sgn, seed: format!("s{seed}") }).unwrap());
+                    }
+                }
+            }
+        }
         for q in [7u64, 11] {
             let nmax = tier.pick(3usize, 4usize);
             let universe: Vec<u64> = (1..q).collect();
@@ -192,6 +214,7 @@ impl Prop for C01 {
         match &c {
             Case::Real { suite, .. } => with_suite!(suite.as_str(), run_real, &c),
             Case::Large { suite, .. } => with_suite!(suite.as_str(), run_large, &c),
+            Case::Provenance { suite, .. } => with_suite!(suite.as_str(), run_provenance, &c),
             Case::ZeroBytes { suite, .. } | Case::HugeMessage { suite, .. } => with_suite!(suite.as_str(), run_patterns, &c),
             Case::TinyKeys { q, .. } | Case::TinyNonces { q, .. } => match q {
                 7 => run_tiny::<7>(&c),
@@ -201,6 +224,147 @@ impl Prop for C01 {
             },
         }
     }
+}
+
+/// through its own wire encoding: binary (`json = false`) or JSON
+fn wire<T: serde::Serialize + serde::de::DeserializeOwned>(json: bool, x: &T, own: impl Fn(&T) -> Option<T>) -> Option<T> {
+    if json {
+        serde_json::from_str(&serde_json::to_string(x).ok()?).ok()
+    } else {
+        own(x)
+    }
+}
+
+/// One session in which EVERY object crosses the wire before it is used: key packages and the public
+/// key package (storage), nonces (kept between the rounds), commitments (signer -> coordinator), the
+/// signing package (coordinator -> signers), signature shares (signer -> coordinator), the signature.
+fn session_over_the_wire<C: Suite>(
+    o: &mut Outcome,
+    tag: &str,
+    ctx: &str,
+    json: bool,
+    kps: &BTreeMap<crate::suites::Id<C>, KeyPackage<C>>,
+    pkp: &fc::keys::PublicKeyPackage<C>,
+    s: &[crate::suites::Id<C>],
+    m: &[u8],
+    seed: &str,
+) {
+    macro_rules! tx {
+        ($what:expr, $v:expr, $ty:ty) => {
+            match wire::<$ty>(json, $v, |x| x.serialize().ok().and_then(|b| <$ty>::deserialize(&b).ok())) {
+                Some(v) => v,
+                None => {
+                    o.fail(format!("{tag}/transport-failed"), format!("{ctx}: {} does not survive its own {} encoding", $what, if json { "JSON" } else { "binary" }));
+                    return;
+                }
+            }
+        };
+    }
+    o.eval(true);
+    let pkp_w = tx!("PublicKeyPackage", pkp, fc::keys::PublicKeyPackage<C>);
+    let mut kps_w = BTreeMap::new();
+    for id in s {
+        kps_w.insert(*id, tx!("KeyPackage", &kps[id], KeyPackage<C>));
+    }
+    let (nonces, comms) = commit_all::<C>(&kps_w, s, seed);
+    let mut comms_w = BTreeMap::new();
+    for (id, c) in &comms {
+        comms_w.insert(*id, tx!("SigningCommitments", c, fc::round1::SigningCommitments<C>));
+    }
+    let pkg = SigningPackage::<C>::new(comms_w, m);
+    let mut shares = BTreeMap::new();
+    for id in s {
+        // each signer receives its own copy of the signing package and reloads its nonces
+        let pkg_w = tx!("SigningPackage", &pkg, SigningPackage<C>);
+        let nonces_w = tx!("SigningNonces", &nonces[id], fc::round1::SigningNonces<C>);
+        match C::w_sign(&pkg_w, &nonces_w, &kps_w[id]) {
+            Ok(sh) => {
+                let shw = match if json { serde_json::to_string(&sh).ok().and_then(|j| serde_json::from_str(&j).ok()) } else { fc::round2::SignatureShare::<C>::deserialize(&sh.serialize()).ok() } {
+                    Some(v) => v,
+                    None => {
+                        o.fail(format!("{tag}/transport-failed"), format!("{ctx}: SignatureShare does not survive its own encoding"));
+                        return;
+                    }
+                };
+                shares.insert(*id, shw);
+            }
+            Err(e) => {
+                o.fail(format!("{tag}/sign-refused"), format!("{ctx}: honest signer {} refused after transport: {e:?}", id_short::<C>(id)));
+                return;
+            }
+        }
+    }
+    let sig = match C::w_aggregate(&pkg, &shares, &pkp_w) {
+        Ok(s) => s,
+        Err(e) => {
+            o.fail(format!("{tag}/aggregate-failed"), format!("{ctx}: aggregate of honest shares failed after transport: {e:?}"));
+            return;
+        }
+    };
+    // the same session without any transport must give the identical signature
+    let mut direct = BTreeMap::new();
+    let plain_pkg = SigningPackage::<C>::new(comms.clone(), m);
+    for id in s {
+        if let Ok(sh) = C::w_sign(&plain_pkg, &nonces[id], &kps[id]) {
+            direct.insert(*id, sh);
+        }
+    }
+    match C::w_aggregate(&plain_pkg, &direct, pkp) {
+        Ok(d) => {
+            if d != sig {
+                o.fail(format!("{tag}/transport-changes-signature"), format!("{ctx}: the session over the wire and the in-memory session give different signatures"));
+            }
+        }
+        Err(e) => o.fail(format!("{tag}/aggregate-failed"), format!("{ctx}: in-memory twin: {e:?}")),
+    }
+    let sig_w = tx!("Signature", &sig, fc::Signature<C>);
+    match verify_everywhere::<C>(pkp.verifying_key(), m, &sig_w) {
+        Ok(()) => {
+            o.count("wire_sessions_verified", 1);
+            o.class("ok");
+        }
+        Err(e) => o.fail(format!("{tag}/signature-does-not-verify"), format!("{ctx}: {e}")),
+    }
+}
+
+fn run_provenance<C: Suite>(c: &Case) -> Outcome {
+    let mut o = Outcome::new();
+    let Case::Provenance { n, t, kind, signers, seed, .. } = c else { unreachable!() };
+    let tag = format!("C01/{}", C::name());
+    let grp = match cached_group::<C>(KeySrc::Dealer, *n, *t, IdKind::U16x, seed) {
+        Ok(g) => g,
+        Err(e) => {
+            o.eval(false);
+            o.fail(format!("{tag}/setup"), e);
+            return o;
+        }
+    };
+    let ctx = format!("n={n} t={t} {kind} S={signers:b}");
+    match kind.as_str() {
+        "wire-bin" | "wire-json" => {
+            let s = pick::<C>(&grp.ids, *signers);
+            session_over_the_wire::<C>(&mut o, &tag, &ctx, kind == "wire-json", &grp.kps, &grp.pkp, &s, &message(3), &format!("{seed}:{signers}"));
+        }
+        _ => {
+            let extra = std::cmp::min(*n, *t + 1) - *t;
+            match super::c03::maintained::<C>(&grp, kind, extra, seed) {
+                Ok((kps, pkp, ids)) => {
+                    let s = pick::<C>(&ids, *signers);
+                    if *pkp.verifying_key() != *grp.pkp.verifying_key() {
+                        o.fail(format!("{tag}/maintenance-changed-group-key"), ctx.clone());
+                    }
+                    o.count("maintained_sessions", 1);
+                    session_check::<C>(&mut o, &tag, &kps, &pkp, &s, &message(3), &format!("{seed}:{kind}:{signers}"));
+                    session_over_the_wire::<C>(&mut o, &tag, &ctx, signers % 2 == 1, &kps, &pkp, &s, &message(4), &format!("{seed}:{kind}:w{signers}"));
+                }
+                Err(e) => {
+                    o.eval(false);
+                    o.fail(format!("{tag}/{kind}-failed"), format!("{ctx}: {e}"));
+                }
+            }
+        }
+    }
+    o
 }
 
 fn run_real<C: Suite>(c: &Case) -> Outcome {
